@@ -74,6 +74,20 @@ def vectors(ctx):
                 f = tc19(rng, rng.randrange(8), rng.randrange(2), rng.randrange(1024), rng.randrange(2),
                          rng.randrange(1024), sdiff=sd, diff=d)
                 V.append({"fn": "adsb.altitude_diff", "frame": f, "case": ["d", sd, d]})
+    # each field swept against an all-ones and an all-zeros rest of the ME field ("unaffected by the other bits" at the extremes)
+    for bg in (0, 1):
+        fill = ((1 << 48) - 1) * bg
+        for st in (1, 2, 3, 4):
+            for (msb, lsb) in ((47, 56), (58, 67), (70, 78), (82, 88)):
+                w = lsb - msb + 1
+                for val in range(0, 1 << w, ctx.pick(5, 1)):
+                    f = gen.set_bits(gen.rand_frame_df(rng, rng.choice([17, 18])), 33, 37, 19)
+                    f = gen.set_bits(f, 41, 88, fill)
+                    f = gen.set_bits(f, 38, 40, st)
+                    f = gen.set_bits(f, msb, lsb, val)
+                    addv(f, ["bg", bg, st, msb, val])
+                    if msb == 82:
+                        V.append({"fn": "adsb.altitude_diff", "frame": f, "case": ["dbg", bg, st, val]})
     # random TC19 content
     for _ in range(ctx.pick(3000, 300000)):
         f = gen.set_bits(gen.rand_frame_df(rng, rng.choice([17, 18])), 33, 37, 19)
